@@ -10,13 +10,13 @@ TB = ('rustc front end + LLVM optimiser are inside the check (optimised IR is wh
 L = 'symbolic execution of rustc-emitted optimised LLVM IR (llsym) + z3 equivalence queries against an independent reference; counterexamples replayed natively'
 CHECKS = {
  'C01': dict(technique=L, design='DESIGN.md 5 (C01)',
-   text='End to end through the RustCrypto API (new, try_seek(64B+o), try_apply_keystream(data[..L])) for the 7 cipher types: key, nonce, block number B (58/32 bits) and data symbolic, offset o and length L enumerated; every dispatcher arm (CPU-feature word symbolic) and the portable build. Solver-decided equality with the RFC 7539 / HChaCha reference, and "nothing else changes" via exact-bounds memory objects.'),
+   text='End to end through the RustCrypto API (new, try_seek(64B+o), try_apply_keystream(data[..L])) for the 7 cipher types: key, nonce, block number B (58/32 bits) and data symbolic, offset o and length L enumerated (incl. requests that continue after a wide 4-block refill); every dispatcher arm (CPU-feature word symbolic) and the portable build. Solver-decided equality with the RFC 7539 / HChaCha reference, and "nothing else changes" via exact-bounds memory objects.'),
  'C02': dict(technique='inductive step from an arbitrary invariant state: symbolic execution of the optimised IR of try_apply_keystream / try_seek / try_current_pos / new with the keystream cores summarised (assume-guarantee with C14), z3 for the obligations', design='DESIGN.md 5 (C02)',
    text='One inductive step instead of histories: from ANY buffered state satisfying a stated representation invariant (counter, len, fresh, buffer, key, stream id symbolic; buffer fill -63..63 and request length 0..70/330 enumerated) every operation XORs the keystream bytes of the absolute position, moves the position exactly and re-establishes the invariant, in the release and the overflow-checked IR; seek over every SeekNum type with the position symbolic over the whole type.'),
  'C04': dict(technique=L, design='DESIGN.md 5 (C04)',
    text='Full digests of the four variants with a symbolic message for the length classes the property names (all dispatcher arms + portable build), and one step update+finalize from an ARBITRARY chaining value / bit counter / buffer fill (hook), against a reference written from the BLAKE document; overflow-checked build explored for reachable panics.'),
  'C05': dict(technique=L, design='DESIGN.md 5 (C05)',
-   text='Skein-256/512/1024 digests with real Threefish inside for symbolic messages over the length classes and a finite set of output sizes (incl. several output blocks, non-multiples of 8), plus one UBI continuation step from an arbitrary (chaining value, byte counter) state.'),
+   text='Skein-256/512/1024 digests with real Threefish inside for symbolic messages over the length classes and a finite set of output sizes (incl. several output blocks, non-multiples of 8, and sizes that need more than 256 output blocks), plus one UBI continuation step from an arbitrary (chaining value, byte counter) state.'),
  'C09': dict(technique=L, design='DESIGN.md 5 (C09)',
    text='Threefish-256/512/1024 encryption with key, tweak and block fully symbolic proved equal (canonical identity / z3) to a reference typed from the Skein 1.3 tables, for the unrolled, no_unroll and overflow-checked builds.'),
  'C10': dict(technique=L, design='DESIGN.md 5 (C10)',
@@ -30,26 +30,26 @@ CHECKS = {
  'C14': dict(technique=L, design='DESIGN.md 5 (C14)',
    text='For each double-round count 0..=10 and each build (std run-time dispatch with the CPU-feature word symbolic, no_simd, 5 no-std target-feature builds in thorough), refill4 / 4 x refill / refill are executed symbolically from the optimised IR with key, stream id and 64-bit counter symbolic and proved equal to the reference block function at counters c..c+3 and final state c+4 (c+1); the overflow-checked build is explored for reachable panics.'),
  'C15': dict(technique=L, design='DESIGN.md 5 (C15)',
-   text='set/get_stream_param round trip, isolation and equality with a directly constructed state (following block at 0/1/10 double rounds), and the boolean iff-characterisation of stream32_eq / stream64_eq, all values symbolic, 4 builds.'),
+   text='set/get_stream_param round trip, isolation and equality with a directly constructed state (following block at 0/1/10 double rounds; history set -> refill4 -> get -> refill), and the boolean iff-characterisation of stream32_eq / stream64_eq, all values symbolic, 4 builds.'),
  'C03': dict(technique='implementation-vs-implementation equivalence: the same entry executed symbolically along every dispatcher arm, in the portable build and in no-std target-feature builds; canonical identity / z3; JH per round in algebraic normal form', design='DESIGN.md 5 (C03)',
-   text='Every dispatching entry (ChaCha refill / apply, BLAKE, Groestl, JH, Skein steps) is executed from its real dispatcher with the CPU-feature word symbolic; the results of all arms, of the no_simd build and of the compile-time-selected no-std builds are proved equal for all inputs (so no arm is consulted against a reference that could share a mistake).'),
+   text='Every dispatching entry (ChaCha refill / apply, BLAKE, Groestl, JH, Skein steps) is executed from its real dispatcher with the CPU-feature word symbolic; the results of all arms, of the no_simd build and of the compile-time-selected no-std builds are proved equal for all inputs (so no arm is consulted against a reference that could share a mistake); in the overflow-checked builds a backend that panics where the others return is reported.'),
  'C06': dict(technique=L + '; JH compression proved round by round in algebraic normal form with cut points on the real f8', design='DESIGN.md 5 (C06)',
    text='JH-224/256/384/512: 42 per-round lemmas per dispatcher arm, the real f8 cut into 42 slices at SSA values matched by simulation signature (each slice = the nibble-oriented round of the submission), and the padding / length framing with f8 uninterpreted, including one step from an arbitrary (state, data length).'),
  'C07': dict(technique=L, design='DESIGN.md 5 (C07)',
    text='Groestl-224/256/384/512 full digests for symbolic messages over the padding-boundary length classes and one step from an arbitrary (chaining value, block counter), on the AES-NI, SSSE3 and SSE2 arms; the AES S-box is an uninterpreted function shared by both sides.'),
  'C08': dict(technique='symbolic execution of the Digest API call sequences with the compression functions uninterpreted (Skein: real core); the digest terms of the split / cloned / reset runs are compared with the one-shot term', design='DESIGN.md 5 (C08)',
-   text='For all 15 hash types: update in three pieces, clone mid-stream, reset and finalize_reset then reuse, each against the one-shot digest of the concatenation, for a set of piece lengths around every buffer boundary and buffer fills; message bytes symbolic.'),
+   text='For all 15 hash types: update in three pieces, clone mid-stream (also after whole blocks were compressed), reset, Digest::finalize_reset and the in-place FixedOutput::finalize_fixed_reset then reuse, each against the one-shot digest of the concatenation, for a set of piece lengths around every buffer boundary and buffer fills; message bytes symbolic.'),
  'C16': dict(technique='memory-access monitor inside the symbolic execution of the optimised IR: every caller slice is an object with exact bounds, alignment 1 and a symbolic base address', design='DESIGN.md 5 (C16)',
-   text='Byte-slice entries of every algorithm and backend (ChaCha apply, hash update/finalize, JH f8, Threefish blocks, vector read/write LE/BE): every load / store / memcpy is shown to lie inside its object, to declare no more alignment than the object guarantees at that offset, and no result term mentions a base-address variable.'),
+   text='Byte-slice entries of every algorithm and backend (ChaCha apply, hash update/finalize, JH f8, Threefish blocks, vector read/write LE/BE): every load / store / memcpy is shown to lie inside its object, to declare no more alignment than the object guarantees at that offset, no result term mentions a base-address variable, no panic is selected by an address, and read_le/read_be/write_le/write_be handed a slice of the wrong length (object of exactly that many bytes) never access outside it.'),
  'C17': dict(technique=L + '; the length counters are symbolic over their full width', design='DESIGN.md 5 (C17)',
    text='One update of n bytes (one to three blocks) + finalize from an arbitrary chaining value and an arbitrary counter (hook), for BLAKE (64/128-bit bit counter incl. the word carry), Groestl (64-bit block counter), JH (byte counter) and Skein (byte counter): counter arguments of every compression call and the encoded length are exact arithmetic; overflow-checked IR explored for reachable panics.'),
- 'C18': dict(level='other', technique='frame / publication analysis by symbolic execution of the dispatchers: store log to globals, atomic ordering of each global access, cold-cache vs warm-cache result equality; thread schedules are not explored', design='DESIGN.md 5 (C18)',
-   text='Not a concurrency model check: shows (P1) the dispatching entries write no global except std_detect\'s feature cache and Once-guarded statics, (P2) every such access is atomic or inside Once::call, (P3) results with a cold cache equal results with an initialised cache for every feature word. Interleavings themselves are outside what the technique reaches here.'),
+ 'C18': dict(level='other', technique='symbolic execution of the dispatching entries: log of stores to globals / thread-locals and their atomicity, cold-cache vs warm-cache result equality, interleaved instances in one execution vs alone (z3 / canonical identity); thread schedules are not explored', design='DESIGN.md 5 (C18)',
+   text='Not a concurrency model check: shows (P1/P2) every store to process-wide state is atomic or inside Once::call (plain stores to globals are reported as races; the state touched beyond the dispatch caches is listed), (P3) results with a cold cache equal results with an initialised cache for every feature word, (P4) instances of related hash types used alternately in one symbolic execution give the digests they give alone. Thread interleavings themselves are outside what the technique reaches here.'),
  'C19': dict(engine='kani', technique='Kani (CBMC) proof harnesses over kani::any() operands on the ppv-null crate, unwinding assertions on; counterexamples via concrete playback', design='DESIGN.md 3, 5 (C19)',
    text='22 harnesses, one per method group and vector type of ppv-null: every operation equals its scalar meaning and never panics for all operands, rotation amounts 1..bits-1 and valid indices, in the overflow- and bounds-checked dev profile.',
    note='trusted: Kani / CBMC / cadical, rustc MIR; bounds: unwind limits checked by unwinding assertions'),
  'C20': dict(technique='the compiler decides "builds" over the declared feature lattice; llsym + z3 decide cross-configuration equality of results on a subset of entries (as C03 / C09)', design='DESIGN.md 5 (C20)',
-   text='Every declared feature combination of every crate is built (49 lattice points), failures are violations; for the algorithm entries the optimised IR of different configurations (std / no_simd / no-std target-feature / no_unroll) is executed symbolically and the results proved equal.'),
+   text='Every declared feature combination of every crate is built (49 lattice points), failures are violations; for the algorithm entries the optimised IR of different configurations (std / no_simd / no-std target-feature / no_unroll) is executed symbolically and the results proved equal (ChaCha, BLAKE, Threefish encryption and both round trips).'),
 }
 for v in CHECKS.values():
     v.setdefault('note', TB)
@@ -66,7 +66,7 @@ m = {
    {'name': 'llsym', 'path': 'llsym/', 'serves_properties': sorted(k for k in CHECKS if k != 'C19'), 'kind_free_text': 'symbolic executor for the optimised LLVM IR rustc emits for /repo (all backend arms, dispatchers) over a canonicalising bit-vector term layer; z3 decides residual queries; native replay of models'},
  ],
  'checks': [], 'not_applicable': [],
- 'notes': 'exit codes: 0 held, 1 VIOLATION (natively replayed), 2 inconclusive/tool error. known_findings.json lists recorded and fixed defects.',
+ 'notes': 'exit codes: 0 held, 1 VIOLATION (natively replayed), 2 inconclusive/tool error. known_findings.json lists recorded and fixed defects. Thorough tier: each parallel phase has a time budget (VERIF_PHASE_BUDGET_S, default 900 s); tasks not started within it are counted as skipped in the evidence. seeded/ holds 36 confirmed seeded changes and the change x check matrix (seeded/RESULTS.md).',
 }
 for p in props:
     i = p['id']
